@@ -268,6 +268,14 @@ fn alpha(cfg: &Cfg) -> Vec<Op> {
         Op::new(Inert("\x1b[>47l".into())),
         Op::new(Inert("\x1b[?47?h".into())),
         Op::new(Inert("\x1b[1049h".into())),
+        // ... nor do numbers that only LOOK like the switching modes once the parser has run out
+        // of room: a 7th sub-parameter, a 33rd parameter (10::::::49 is 10, not 1049; the 32nd
+        // parameter of 34 is 1049 followed by more digits)
+        Op::new(Inert("\x1b[?10::::::49l".into())),
+        Op::new(Inert("\x1b[?10::::::47l".into())),
+        Op::new(Inert("\x1b[?4::::::7l".into())),
+        Op::new(Inert(format!("\x1b[?{}1049;5l", "0;".repeat(31)))),
+        Op::new(Inert(format!("\x1b[?{}47;0;0l", "2;".repeat(31)))),
         // mode lists in which an unimplemented number comes first
         c(DecSet(vec![2004, 1049])),
         c(DecRst(vec![12, 1049])),
